@@ -741,6 +741,7 @@ def run(rep, progs, tier):
     rep.rule("C03.machine", "builder transition table (5 methods x 3 states) equals the protocol table")
     rep.rule("C03.key-exact", "the per-connection key cache returns a key equal to the parsed key (no case-folding / trimming / prefix lookup)")
     rep.rule("C03.response-ctor", "Response constructed only by the builder / Response::empty")
+    rep.rule("C03.accessors", "imported from C19: Response / Frame iteration and lookup yield what was decoded, in wire order, error last")
     rep.rule("C03.ack", "ACK [code@index] {command} message: fields tied to tuple positions, mapped field to field")
     rep.rule("C03.binary", "payload = split-off message, cut by data_length only, never scanned")
     rep.rule("C03.priority", "binary alternative before key-value; all five alternatives present")
@@ -755,3 +756,8 @@ def run(rep, progs, tier):
         priority_rule(rep, prog, cfg)
         grammar_rule(rep, prog, cfg)
         verbatim_rule(rep, prog, cfg)
+        # the decoded frames / error are observed through the accessors of Response and Frame: in wire order, first frame first,
+        # error last (decided by the rules of C19, which owns them)
+        from . import C19
+        with rep.importing("C19.", "C03.accessors."):
+            C19.all_rules(rep, prog, cfg)
